@@ -247,7 +247,7 @@ fn exec(ctx: &mut Ctx, ev: &Ev, rng: &mut Rng) {
             ctx.check("soes-value-or", vals == fa, ev, "value", || format!("Soes::value differs from the OR of its terms {:?}", ta));
             ctx.check("soes-shape", nc == ta.len() && nvars == n, ev, "shape", || "num_cubes/num_vars wrong".into());
             let lm = Model { n, bits: fa.clone() };
-            ctx.check("soes-to-lut", Model::from_blocks(n, l1.blocks()) == lm && l1 == l2 && l1.num_vars() == n, ev, "lut", || format!("Lut::from(&soes) = {} differs from the tabulated OR {:?}", l1, ta));
+            ctx.check("soes-to-lut", Model::from_blocks(n, l1.blocks()) == lm && l1 == l2 && l1.num_vars() == n && vmon::obs::well_formed(n, l1.blocks()).is_ok(), ev, "lut", || format!("Lut::from(&soes) = {} differs from the tabulated OR {:?}", l1, ta));
             ctx.check("soes-is-zero-sound", !isz || fa.iter().all(|b| !*b), ev, "is_zero", || "is_zero holds for a Soes that is not constant zero".into());
             ctx.check("soes-is-one-sound", !iso || fa.iter().all(|b| *b), ev, "is_one", || "is_one holds for a Soes that is not constant one".into());
             let want_or: Vec<bool> = fa.iter().zip(fb.iter()).map(|(x, y)| *x || *y).collect();
